@@ -14,7 +14,8 @@ Record fdef := { f_kind : fkind;
                  f_accepts : pargs -> pkwargs -> bool   (* does calling the (decorated) name bind its arguments? a bare generator
                                                            function rejects a bad call at once, deal's wrapper( *args, **kwargs) never *) }.
 
-Inductive gstate := GNew (p : prog value) | GLive (k : resume -> prog value) | GRunning | GDone.
+(* co: the handle is a coroutine object (created by Spawn) rather than a generator: resuming a finished one is a RuntimeError *)
+Inductive gstate := GNew (co : bool) (p : prog value) | GLive (co : bool) (k : resume -> prog value) | GRunning | GDone (co : bool).
 Record world := { wst : st; gens : list gstate }.
 Definition w_init := {| wst := st0; gens := [] |}.
 Definition on_st (f : st -> st) (w : world) := {| wst := f (wst w); gens := gens w |}.
@@ -35,6 +36,7 @@ Definition bad_yield : exn := mk_exn (mk_cls "<yield-outside-generator>" []) [].
 Definition stop_iteration : exn := mk_exn StopIterationC [].
 Definition generator_exit : exn := mk_exn GeneratorExitC [].
 Definition just_started : exn := mk_exn TypeErrorC [VStr "can't send non-None value to a just-started generator"].
+Definition reused_coroutine : exn := mk_exn RuntimeErrorC [VStr "cannot reuse already awaited coroutine"].
 Definition ignored_exit : exn := mk_exn RuntimeErrorC [VStr "generator ignored GeneratorExit"].
 
 (* what `resume` does to a generator that is not suspended at a yield *)
@@ -67,7 +69,7 @@ Section Interp.
           | Some d =>
             match f_kind d with
             | KGen => if f_accepts d a kw
-                      then let (h, w1) := new_gen (GNew (f_wrapper d a kw)) w in EVal (inl (VGen h)) w1
+                      then let (h, w1) := new_gen (GNew false (f_wrapper d a kw)) w in EVal (inl (VGen h)) w1
                       else EVal (inr (mk_exn TypeErrorC [VStr "call arguments"])) w
             | KSync => match run _ (f_wrapper d a kw) w with
                        | Done r w1 => EVal r w1
@@ -87,7 +89,7 @@ Section Interp.
           | Some d =>
             let w0 := on_st (emit (EvBody f a kw)) w in
             match f_kind d with
-            | KGen => let (h, w1) := new_gen (GNew (log (EvBody f a kw) ;;; f_body d a kw)) w in EVal (inl (VGen h)) w1
+            | KGen => let (h, w1) := new_gen (GNew false (log (EvBody f a kw) ;;; f_body d a kw)) w in EVal (inl (VGen h)) w1
             | KSync => match run _ (f_body d a kw) w0 with
                        | Done r w1 => EVal r w1
                        | Susp _ _ _ => EVal (inr bad_yield) w   (* impossible in Python: `yield` in a plain function makes it a generator *)
@@ -100,32 +102,33 @@ Section Interp.
           end
         end
     | Spawn f a kw =>
-        let (h, w1) := new_gen (GNew (Vis (Call f a kw) (fun r => lift_res r))) w in EVal (VGen h) w1
+        let (h, w1) := new_gen (GNew true (Vis (Call f a kw) (fun r => lift_res r))) w in EVal (VGen h) w1
     | GenResume h r =>
         match rec with None => EOut | Some run =>
-          let go (p : prog value) :=
+          let go (co : bool) (p : prog value) :=
             match run _ p (set_gen h GRunning w) with
-            | Done (inl v) w1 => EVal (match r with Close => GStop VNone | _ => GStop v end) (set_gen h GDone w1)
+            | Done (inl v) w1 => EVal (match r with Close => GStop VNone | _ => GStop v end) (set_gen h (GDone co) w1)
             | Done (inr e) w1 =>
                 EVal (match r with
                       | Close => if isinstance e "GeneratorExit" || isinstance e "StopIteration" then GStop VNone else GRaise e
-                      | _ => GRaise e end) (set_gen h GDone w1)
+                      | _ => GRaise e end) (set_gen h (GDone co) w1)
             | Susp v g' w1 =>
                 match r with
-                | Close => EVal (GRaise ignored_exit) (set_gen h (GLive g') w1)
-                | _ => EVal (GYield v) (set_gen h (GLive g') w1)
+                | Close => EVal (GRaise ignored_exit) (set_gen h (GLive co g') w1)
+                | _ => EVal (GYield v) (set_gen h (GLive co g') w1)
                 end
             | OutOfFuel => EOut
             end in
-          match nth h (gens w) GDone with
-          | GDone | GRunning => EVal (finished r) w
-          | GNew p =>
+          match nth h (gens w) (GDone false) with
+          | GDone true => EVal (match r with Close => GStop VNone | _ => GRaise reused_coroutine end) w
+          | GDone false | GRunning => EVal (finished r) w
+          | GNew co p =>
               match r with
-              | Send VNone => go p
+              | Send VNone => go co p
               | Send _ => EVal (GRaise just_started) w      (* can't send non-None value to a just-started generator *)
-              | _ => EVal (finished r) (set_gen h GDone w)
+              | _ => EVal (finished r) (set_gen h (GDone co) w)
               end
-          | GLive g => go (g r)
+          | GLive co g => go co (g r)
           end
         end
     end.
